@@ -76,6 +76,15 @@ Fixpoint numeric (v : val) : bool :=
 Definition arith (u : Z -> Z -> Z) (a b : val) : res val :=
   if numeric a && numeric b then ew2 u a b else Err E_UNMODELLED.
 Definition b2z (b : bool) : Z := if b then 1 else 0.
+(* np.minimum / np.maximum on ragged (object) operands raise in NumPy: only atoms, vectors, matrices *)
+Definition flat_or_rect (v : val) : bool :=
+  match v with
+  | VInt _ => true
+  | VList l => match classify l with Other => match l with [] => true | _ => false end | _ => true end
+  | _ => false
+  end.
+Definition arith_flat (u : Z -> Z -> Z) (a b : val) : res val :=
+  if flat_or_rect a && flat_or_rect b then arith u a b else Err E_UNMODELLED.
 
 Definition v_list (x : val) : val := match x with VChar c => VStr [c] | _ => VList [x] end.
 
@@ -87,8 +96,8 @@ Definition dyad_of (id : list Z) : option (val -> val -> res val) :=
   if is "+" || is "L+" then Some (arith Z.add) else
   if is "-" || is "L-" then Some (arith Z.sub) else
   if is "*" || is "L*" then Some (arith Z.mul) else
-  if is "&" || is "L&" then Some (arith Z.min) else
-  if is "|" || is "L|" then Some (arith Z.max) else
+  if is "&" || is "L&" then Some (arith_flat Z.min) else
+  if is "|" || is "L|" then Some (arith_flat Z.max) else
   if is "=" || is "L=" then Some (arith (fun x y => b2z (Z.eqb x y))) else
   if is "<" || is "L<" then Some (arith (fun x y => b2z (Z.ltb x y))) else
   if is ">" || is "L>" then Some (arith (fun x y => b2z (Z.gtb x y))) else
@@ -105,7 +114,7 @@ Definition dyad_of (id : list Z) : option (val -> val -> res val) :=
 
 Definition v_size (x : val) : res val :=
   match x with
-  | VInt _ => Ok (VInt 1)
+  | VInt z => Ok (VInt (Z.abs z))          (* the magnitude of a number *)
   | VChar c => Ok (VInt c)
   | VStr s => Ok (VInt (Z.of_nat (List.length s)))
   | VList l => Ok (VInt (Z.of_nat (List.length l)))
@@ -121,7 +130,8 @@ Definition v_reverse (x : val) : res val :=
 
 Definition v_first (x : val) : res val :=
   match x with
-  | VStr (c :: _) => Ok (VChar c)
+  | VStr (c :: _) => Ok (VStr [c])         (* First of a string / of a character is a one-character string here *)
+  | VChar c => Ok (VStr [c])
   | VList (v :: _) => Ok v
   | VDict _ => Err E_UNMODELLED
   | other => Ok other
